@@ -444,14 +444,27 @@ class LangServer:
                     )
                     # Setup renaming
                     if use_info.rename_map:
-                        rename_reversed = {
-                            value: key for (key, value) in use_info.rename_map.items()
-                        }
+                        # An entity may be accessible under several local names
+                        local_names: dict[str, list[str]] = {}
+                        for key, value in use_info.rename_map.items():
+                            if key != value:
+                                local_names.setdefault(value, []).append(key)
                         for tmp_obj in tmp_list:
-                            var_list.append(tmp_obj)
-                            rename_list.append(
-                                rename_reversed.get(tmp_obj.name.lower(), None)
-                            )
+                            obj_name = tmp_obj.name.lower()
+                            if use_info.only_list:
+                                own_name = (
+                                    obj_name in use_info.only_list
+                                    and use_info.rename_map.get(obj_name, obj_name)
+                                    == obj_name
+                                )
+                            else:
+                                own_name = obj_name not in use_info.hidden
+                            if own_name or obj_name not in local_names:
+                                var_list.append(tmp_obj)
+                                rename_list.append(None)
+                            for local_name in local_names.get(obj_name, []):
+                                var_list.append(tmp_obj)
+                                rename_list.append(local_name)
                     else:
                         var_list += tmp_list
                         rename_list += [None for _ in tmp_list]
